@@ -11,7 +11,7 @@ import os
 from fractions import Fraction
 
 from vlib import qmode, smt
-from vlib.core import Ob, Check, DISCHARGED, FAILED, UNDECIDED, ERROR, GeneratorError, REPO
+from vlib.core import Ob, Check, DISCHARGED, FAILED, UNDECIDED, ERROR, GeneratorError, REPO, guarded
 from vlib.replay import attach
 
 TOL = Fraction(1, 10 ** 27)
